@@ -191,7 +191,7 @@ static std::string xml_dump(const XmlElement *e, int depth = 0)
 	return j.done();
 }
 
-// xmlparse <flags: 1=noextensions> <hexdoc> [find: <hexpath> <hexattr|-> <hexval|->]...
+// xmlparse <flags: 1=noextensions> <hexdoc> [find: <hexpath> <hexattr|-> <hexval|-> <delimiter char code>]...
 static Reg r_xmlparse("xmlparse", [](std::istringstream& is) {
 	int flags; std::string doc; is >> flags >> doc;
 	XmlElement::XmlFlags fl;
@@ -207,13 +207,15 @@ static Reg r_xmlparse("xmlparse", [](std::istringstream& is) {
 		j.k("errors").num(root->GetErrorCnt());
 		std::string path, an, av;
 		J finds('[');
-		while (is >> path >> an >> av)
+		int dl;
+		while (is >> path >> an >> av >> dl)
 		{
+			const char delim(static_cast<char>(dl));
 			const std::string p(unhex(path)), a(unhex(an)), v(unhex(av));
 			const bool filt(an != "-");
 			XmlElement::XmlSet set;
-			const int n(root->find(p, set, filt ? &a : nullptr, filt ? &v : nullptr));
-			const XmlElement *first(root->find(p, filt ? &a : nullptr, filt ? &v : nullptr));
+			const int n(root->find(p, set, filt ? &a : nullptr, filt ? &v : nullptr, delim));
+			const XmlElement *first(root->find(p, filt ? &a : nullptr, filt ? &v : nullptr, delim));
 			J f;
 			J s('[');
 			for (const auto *e : set) s.num(e->GetSequence());
